@@ -148,6 +148,7 @@ static void reporter(int is_error, const char* file, int line, const char* funct
 // sink's back and its driver is never stopped); every oracle message of such a program carries this cause, so that the listed
 // consequences are told apart from anything else that goes wrong there
 static int g_cfg_while_running;
+static int g_in_abort;        // the client is inside acquire_abort (a hang there is never the stalled-monitor finding)
 
 static void oracle(const char* fmt, ...)
 {
@@ -394,7 +395,9 @@ static void exec_client(const char* op)
         check_devices("stop");
     } else if (!strcmp(op, "abort")) {
         ++g_mon_epoch;
+        g_in_abort = 1;
         enum AcquireStatusCode rc = acquire_abort(g_rt);
+        g_in_abort = 0;
         printf("API abort -> %s\n", rc == AcquireStatus_Ok ? "ok" : "err");
         if (g_acq_open) { check_acquisition("abort"); ++g_nfinished; }
         g_mon_late[0] = g_mon_late[1] = 0;
@@ -581,7 +584,8 @@ static void on_terminal(void* ctx, int code)
             int mon_lags = c->holds.cycles[m - 1] < c->holds.cycles[k - 1] ||
                            (c->holds.cycles[m - 1] == c->holds.cycles[k - 1] && c->holds.pos[m - 1] < c->holds.pos[k - 1]) ||
                            (v->monitor.reader.state == ChannelState_Mapped);
-            if (mon_lags && (v->source.is_running || v->filter.is_running) && c->is_accepting_writes) cause = "stalled-monitor";
+            // (the finding is about acquire_stop, which waits for completion; acquire_abort refuses writes and must get out of this)
+            if (mon_lags && (v->source.is_running || v->filter.is_running) && c->is_accepting_writes && !g_in_abort) cause = "stalled-monitor";
         }
     }
     printf("ORACLE runtime-%s-never-returns cause=%s\n", what, cause);
